@@ -117,6 +117,14 @@ Definition c08_switches (b : behaviour) : list bool :=
   [b_df_checks b; b_df_cols_check b; b_mtag_pos_first b; b_array_checks_first b; b_meta_lookup_first b;
    b_link_lookup_first b; b_ext_check_first b; b_values_check_first b; b_prop_type_check b; b_prop_values_uniform b;
    b_replace_all_atomic b].
+
+(** the hand copy of [util::looksLikeUUID] in the model is the definition the translator regenerates from
+    src/util/util.cpp on every run *)
+Require NixV.Store.GenBridge NixV.Gen.GenUtil.
+Theorem C08_looksLikeUUID_is_generated : forall s, NixV.Store.Db.looksLikeUUID s = NixV.Gen.GenUtil.looksLikeUUID s.
+Proof. exact NixV.Store.GenBridge.db_looksLikeUUID_is_generated. Qed.
+Print Assumptions C08_looksLikeUUID_is_generated.
+
 Theorem C08_current_is_repaired : c08_switches current_behaviour = c08_switches repaired.
 Proof. reflexivity. Qed.
 Print Assumptions C08_current_is_repaired.
